@@ -872,7 +872,8 @@ enum Mode {
 
 fn setup(mode: Mode) -> Vec<Ev> {
     match mode {
-        Mode::Content => vec![Ev::ConsumeOk(1, 0), Ev::ConsumeOk(1, 1), Ev::ConsumeOk(2, 0), Ev::CliListenReturns(1), Ev::CliListenReturns(2)],
+        // (channel 1's return listener is registered twice: the second registration is the current one)
+        Mode::Content => vec![Ev::ConsumeOk(1, 0), Ev::ConsumeOk(1, 1), Ev::ConsumeOk(2, 0), Ev::CliListenReturns(1), Ev::CliListenReturns(1), Ev::CliListenReturns(2)],
         Mode::Violations => vec![Ev::ConsumeOk(1, 0), Ev::CliListenReturns(1)],
         Mode::Lifecycle => vec![],
         Mode::Listeners => vec![],
@@ -1094,6 +1095,34 @@ fn explore(mode: Mode, name: &str, property: &str, depth: usize, thorough: bool,
     type Key = (String, RefConn);
     let mut seen: HashMap<Key, usize> = HashMap::new();
     let mut frontier: VecDeque<Vec<Ev>> = VecDeque::new();
+    // the setup events are judged like any other step
+    {
+        let mut real = Real::new();
+        let mut rf = RefConn::new();
+        for n in &open_channels(mode) {
+            let _ = real.probe.open_slot(Some(*n));
+            real.opened.insert(*n);
+            rf.open(*n);
+        }
+        let all: Vec<u16> = vec![0, 1, 2];
+        let _ = real.probe.take_outbuf();
+        let evs = setup(mode);
+        for (k, ev) in evs.iter().enumerate() {
+            part.transitions += 1;
+            match judge_step(&mut real, &mut rf, *ev, &all) {
+                Judged::Continue => {}
+                Judged::Violation(kind, detail) => {
+                    let key_kind = kind.split(':').next().unwrap().to_string();
+                    part.violation(&format!("{}:{}", name, key_kind), format!("after {:?} then {:?}: {}", &evs[..k], ev, detail), json!({"engine":"seqx","check":"dispatch","mode":name,"history":[]}));
+                    return;
+                }
+                Judged::Terminal => {
+                    part.violation(&format!("{}:setup", name), format!("after {:?} then {:?}: the connection ended", &evs[..k], ev), json!({"engine":"seqx","check":"dispatch","mode":name,"history":[]}));
+                    return;
+                }
+            }
+        }
+    }
     let (r0, f0) = build(mode, &[]).expect("setup must be valid");
     seen.insert((format!("{:?}", r0.probe.fingerprint()), f0), 0);
     frontier.push_back(vec![]);
